@@ -1,4 +1,5 @@
 """Dominating branch conditions, interval evaluation and expression equality (solver-free discharge helpers)."""
+import re
 from . import mir
 
 INT_RANGES = {
@@ -68,6 +69,39 @@ def int_ty(tystr):
     return tystr if tystr in INT_RANGES else None
 
 
+_WIDEN = re.compile(r"^<(\w+) as From<(\w+)>>::from$")
+COUNT_PRESERVING = ("Iterator::map", "Iterator::enumerate", "Iterator::rev", "Iterator::inspect", "Iterator::cloned",
+                    "Iterator::copied", "Iterator::by_ref", "IntoIterator::into_iter", "Iterator::peekable")
+
+
+def _iter_count(t, depth=0):
+    """upper bound on the number of items of the collection / iterator term `t` when it is built from a range with bounded
+    ends through count-preserving adaptors and collect(); None when unknown"""
+    if depth > 30:
+        return None
+    while isinstance(t, tuple):
+        if t[0] in ("ref", "deref", "ok", "try"):
+            t = t[1]
+        elif t[0] == "field" and isinstance(t[1], tuple) and t[1][0] == "variant" and t[1][2] in ("Continue", "Ok", "Some"):
+            t = t[1][1]
+        elif t[0] == "call" and (t[1].endswith("Try>::branch") or t[1] == "Iterator::collect" or t[1] in COUNT_PRESERVING or
+                                 t[1].endswith(("as IntoIterator>::into_iter", "as Iterator>::collect"))) and t[3]:
+            t = t[3][0]
+        else:
+            break
+    if not isinstance(t, tuple):
+        return None
+    if t[0] == "call" and t[1].startswith("RangeInclusive<Idx>::new") and len(t[3]) == 2:
+        lo, hi = rng(t[3][0], depth + 1), rng(t[3][1], depth + 1)
+        if lo and hi:
+            return max(0, hi[1] - lo[0] + 1)
+    if t[0] == "agg" and t[1] == "adt" and t[2] == "core::ops::range::Range" and len(t[4]) == 2:
+        lo, hi = rng(t[4][0], depth + 1), rng(t[4][1], depth + 1)
+        if lo and hi:
+            return max(0, hi[1] - lo[0])
+    return None
+
+
 def rng(e, depth=0):
     """Conservative interval of an integer expression, or None."""
     if not isinstance(e, tuple) or depth > 30:
@@ -133,7 +167,14 @@ def rng(e, depth=0):
         return None
     if k == "call":
         if e[1] in PURE_LEN:
-            return (0, 2**63 - 1)
+            n = _iter_count(e[3][0], depth + 1) if e[3] else None
+            return (0, n) if n is not None else (0, 2**63 - 1)
+        m = _WIDEN.match(e[1])
+        if m and m.group(2) in INT_RANGES and m.group(1) in INT_RANGES and e[3]:
+            src = INT_RANGES[m.group(2)]
+            dst = INT_RANGES[m.group(1)]
+            if dst[0] <= src[0] and src[1] <= dst[1]:
+                return rng(e[3][0], depth + 1) or src
         if e[1] in ("Ord::min", "min") and len(e[3]) == 2:
             a, b = rng(e[3][0], depth + 1), rng(e[3][1], depth + 1)
             cands = [x for x in (a, b) if x]
